@@ -6,6 +6,10 @@
 //                                           the call sequence and returns the given results; r_create may be a
 //                                           comma list: result of the 1st, 2nd, ... pthread_create call (the last
 //                                           one repeats)
+//   I <sizeA> <sizeB>                       scripted, two creators interleaved: a second zix_thread_create(sizeB) runs
+//                                           to completion between the first call's pthread_attr_setstacksize and
+//                                           its pthread_create (a schedule two concurrent creators can produce);
+//                                           each thread must get its own requested stack
 //   J <r_join>                              scripted pthread_join result
 //   T <size> <n> <delay_us> <f|r>           real: n concurrent threads with the requested stack size, joined
 //                                           forwards or in reverse; the wrappers pass through and record
@@ -62,6 +66,9 @@ static int         fake_started;
 static size_t      captured_size; // size given to the real pthread_attr_setstacksize (pass-through mode)
 static int         captured_sets;
 static size_t      fake_stack;
+static size_t      fake_stacks[8]; // stack carried by the attributes of the 1st, 2nd, ... successful fake create
+static size_t      nest_size;      // I cases: size of the creator to run inside the first setstacksize
+static ZixStatus   nest_status;
 
 static void* (*expected_fn)(void*);
 static void*     expected_arg;
@@ -131,6 +138,15 @@ int __wrap_pthread_attr_setstacksize(pthread_attr_t* a, size_t size)
     if (!r_set) {
       attr_stack[id] = size;
     }
+    if (nest_size) {
+      // the other creator's whole call happens now
+      static int   dummy2;
+      ZixThread    th2;
+      const size_t n = nest_size;
+      nest_size      = 0;
+      nest_status    = zix_thread_create(&th2, n, expected_fn, expected_arg);
+      (void)dummy2;
+    }
     return r_set; // pthread functions return the error number; errno is left as it was
   }
   if (recording && on_main()) {
@@ -161,6 +177,9 @@ int __wrap_pthread_create(pthread_t* t, const pthread_attr_t* a, void* (*fn)(voi
     if (!r) {
       ++fake_started;
       fake_stack = a ? attr_stack[attr_id(a)] : FAKE_DEFAULT_STACK; // the stack THIS call's attributes carry
+      if (fake_started <= 8) {
+        fake_stacks[fake_started - 1] = fake_stack;
+      }
       *t         = pthread_self();
     }
     return r;
@@ -245,6 +264,36 @@ static void case_scripted(char** tok)
   printf("st=%s started=%d", status_name(st), fake_started);
   if (fake_started) {
     printf(" stack_ge=%d || %s stack=%zu\n", fake_stack >= size, calls, fake_stack);
+  } else {
+    printf(" stack_ge=- || %s stack=-\n", calls);
+  }
+}
+
+static void case_interleaved(char** tok)
+{
+  const size_t size_a = (size_t)strtoull(tok[1], NULL, 10);
+  const size_t size_b = (size_t)strtoull(tok[2], NULL, 10);
+  int          dummy  = 0;
+  ZixThread    th;
+  r_init = r_set = 0;
+  n_creates = 1;
+  create_calls = 0;
+  r_creates[0] = 0;
+  reset_rec();
+  fake_started = 0;
+  expected_fn  = never_run;
+  expected_arg = &dummy;
+  nest_size    = size_b;
+  nest_status  = ZIX_STATUS_ERROR;
+  fake         = 1;
+  const ZixStatus st = e_thread_create(&th, size_a, never_run, &dummy);
+  fake         = 0;
+  nest_size    = 0;
+  // the inner creator's pthread_create comes first, the outer one second
+  printf("st=%s/%s started=%d", status_name(st), status_name(nest_status), fake_started);
+  if (fake_started == 2) {
+    printf(" stack_ge=%d/%d || %s stack=%zu/%zu\n", fake_stacks[1] >= size_a, fake_stacks[0] >= size_b, calls,
+           fake_stacks[1], fake_stacks[0]);
   } else {
     printf(" stack_ge=- || %s stack=-\n", calls);
   }
@@ -417,7 +466,9 @@ int main(void)
       --n;
       memmove(tok, tok + 1, (size_t)n * sizeof(tok[0]));
     }
-    if (n == 5 && !strcmp(tok[0], "S")) {
+    if (n == 3 && !strcmp(tok[0], "I")) {
+      case_interleaved(tok);
+    } else if (n == 5 && !strcmp(tok[0], "S")) {
       case_scripted(tok);
     } else if (n == 2 && !strcmp(tok[0], "J")) {
       case_join(tok);
